@@ -16,10 +16,24 @@ pub const HANG_LIMIT: usize = 200_000;
 /// step limit that converts an endless retry loop into a classified panic.
 pub struct Src {
     pub inner: FaultySource,
+    /// the device returns at most this many bytes per read call (a legal short read)
+    pub max_read: usize,
 }
-impl Src {
-    pub fn new(data: Arc<Vec<u8>>, plan: Plan, calls: Arc<AtomicUsize>, fired: Arc<AtomicUsize>, pos: usize) -> Self {
-        Src { inner: FaultySource { data, pos, calls, faults_fired: fired, plan } }
+/// shared state of all handles on one faulty "file"
+#[derive(Clone)]
+pub struct Dev {
+    pub data: Arc<Vec<u8>>,
+    pub plan: Plan,
+    pub calls: Arc<AtomicUsize>,
+    pub fired: Arc<AtomicUsize>,
+    pub max_read: usize,
+}
+impl Dev {
+    pub fn new(data: Arc<Vec<u8>>, plan: Plan, max_read: usize) -> Self {
+        Dev { data, plan, calls: Default::default(), fired: Default::default(), max_read }
+    }
+    pub fn open(&self, pos: usize) -> Src {
+        Src { inner: FaultySource { data: self.data.clone(), pos, calls: self.calls.clone(), faults_fired: self.fired.clone(), plan: self.plan.clone() }, max_read: self.max_read }
     }
 }
 impl Read for Src {
@@ -27,7 +41,8 @@ impl Read for Src {
         if self.inner.calls.load(Ordering::SeqCst) > HANG_LIMIT {
             panic!("HANG-GUARD: more than {HANG_LIMIT} read calls");
         }
-        self.inner.read(buf)
+        let k = buf.len().min(self.max_read);
+        self.inner.read(&mut buf[..k])
     }
 }
 impl Seek for Src {
@@ -143,21 +158,16 @@ pub fn json<R: Read>(src: R, schema: SchemaRef) -> ReadOutcome {
 
 // ---- Parquet through a fault-injecting ChunkReader
 
-pub struct FaultyFile {
-    pub data: Arc<Vec<u8>>,
-    pub plan: Plan,
-    pub calls: Arc<AtomicUsize>,
-    pub fired: Arc<AtomicUsize>,
-}
+pub struct FaultyFile(pub Dev);
 impl Length for FaultyFile {
     fn len(&self) -> u64 {
-        self.data.len() as u64
+        self.0.data.len() as u64
     }
 }
 impl ChunkReader for FaultyFile {
     type T = Src;
     fn get_read(&self, start: u64) -> parquet::errors::Result<Src> {
-        Ok(Src::new(self.data.clone(), self.plan.clone(), self.calls.clone(), self.fired.clone(), start as usize))
+        Ok(self.0.open(start as usize))
     }
     fn get_bytes(&self, start: u64, length: usize) -> parquet::errors::Result<Bytes> {
         // same shape as the implementation for std::fs::File
